@@ -86,9 +86,37 @@ func randomHistory(t, n int, root string, seed uint64) recResult {
 			return anyPw()
 		}
 	}
+	mutate := func(x int, live []int) {
+		switch {
+		case x < 14:
+			if len(ss.keys) >= tMax || len(live) >= 4 {
+				return
+			}
+			if rng.Intn(3) == 0 {
+				ss.importAccount(labels[rng.Intn(len(labels))], anyPw())
+			} else {
+				ss.newAccount(labels[rng.Intn(len(labels))], anyPw())
+			}
+		case x < 62:
+			id := target()
+			ss.changePassword(id, try(id), anyPw())
+		case x < 70:
+			id := target()
+			ss.deleteAccount(id, try(id))
+		case x < 76:
+			ss.setLabel(target(), labels[1+rng.Intn(len(labels)-1)])
+		default:
+			ss.setDefault(target())
+		}
+	}
 	for k := 0; k < n; k++ {
 		x := rng.Intn(100)
 		live := liveIds()
+		if x < 82 && (x < 14 || x >= 50) && rng.Intn(7) == 0 {
+			// the same kind of call, but the wallet file cannot be written while it runs (it must fail and change nothing)
+			ss.withSaveBlocked(func() { mutate(x, live) })
+			continue
+		}
 		switch {
 		case x < 14 || len(live) == 0:
 			if len(ss.keys) >= tMax || len(live) >= 4 {
